@@ -904,6 +904,11 @@ class Context:
             self.claims.append({'name': name, 'kind': 'claim', 'verdict': 'unsat',
                                 'trivial': True})
             return True
+        except Unmodelled as e:
+            # the call got past its argument validation into code the engine cannot
+            # execute: the rejection did not happen (the replay on the real code decides)
+            self.fail(name, f'expected {exc.__name__}, call proceeded to unmodelled code: {e}')
+            return False
         self.fail(name, f'expected {exc.__name__}, call returned')
         return False
 
